@@ -46,6 +46,9 @@ CHECKS = {
  "C09": ("model_checking", "explicit-state BFS over command histories with state de-duplication, running-model invariant on every transition",
          "breadth-first search over all sequences (<=3 quick, <=4 thorough) of a 12-command annotate menu from 6 initial files x 4 styles, every transition executed by the real command on a scratch tree, states hashed on (tree bytes, model); after each transition the read-back must equal old U requested (semantically for --merge-copyrights)",
          "reuse is stateless between invocations (soundness of state merging); nocontrib templates may drop contributors of the replaced block", "4/C09"),
+ "C03": ("model_checking", "complete product enumeration (name x place x kind; .gitignore rule sets; submodule/subproject options x cwd) with Git's check-ignore as oracle",
+         "every (name, location, kind) cell over 42 names x 9 locations x 5 kinds packed and cell by cell, Git repositories for every .gitignore rule set (<=2 of 6 quick, all 64 thorough) x nested .gitignore over files in tracked/untracked/ignored states, and submodule + Meson subproject trees x 4 option combinations x 3 working directories; the examined sets of lint --json, spdx, lint-file and annotate -r must equal the reference covered set on every specified path",
+         "Git 2.39.5 is the oracle for VCS exclusion; unspecified cells (nested LICENSES/.reuse, lower-case names, .git files) not asserted", "4/C03"),
 }
 PENDING_REASON = "check not built yet in this session (design in DESIGN.md section 4); not claimed until its machinery exists"
 
